@@ -17,8 +17,12 @@ their serialisation).
 `effectiveVersion H (progOf s.sym) id f` is what a fresh process computes for the resulting program
 (`Model/Version.lean`; C03: independent of definition order and set enumeration order).
 
-The cluster lock (excluded by the property) is not modelled. Instances whose function object has been
-replaced since they were made are not part of "the resulting program" (`live`).
+The cluster lock is modelled (`St.locked`, event `lock b`): the property excludes the answers given *while* the cluster is
+locked, and only those — `query_eq_fresh` holds at every position where the cluster is not locked, whatever was edited, asked or
+refused during earlier locked periods (`unlock_restores_coherence`); while it is locked an instance that has a version repeats it
+and touches nothing (`locked_query_frozen`), an instance that has none computes the fresh one (`query_eq_fresh`, second case),
+and a registration is refused without binding anything (`locked_registration_refused`).
+Instances whose function object has been replaced since they were made are not part of "the resulting program" (`live`).
 Every definition the events create gets a hash rule (`Def.trackable`) or is a plain function of another package
 (`defForeign`): no rule is kept for such a function, but the symbol bound to it is watched (fix F27), so replacing a
 memento function by a function of another package and back, or re-binding an alias of such a function, is inside the
@@ -33,21 +37,62 @@ open Memento.Version
     from scratch for the resulting program -/
 theorem query_eq_fresh (H : Ser → List Char) (evs : List Ev) (i : Nat) (inst : Inst) :
     let s := run H {} evs
+    s.insts[i]? = some inst → live s inst → (s.locked = false ∨ inst.cver = none) →
+    (step H s (.query i)).2 = some (effectiveVersion H (progOf s.sym) id inst.name) := by
+  intro s hi hlive hul
+  exact query_fresh (inv_run (inv_init H) evs) hi hlive hul
+
+/-- only the answers given while the cluster is locked are excluded: once it is unlocked, every live instance reports the
+    fresh version of the resulting program again — whatever was edited, re-bound, asked or refused while it was locked -/
+theorem unlock_restores_coherence (H : Ser → List Char) (evs : List Ev) (i : Nat) (inst : Inst) :
+    let s := run H {} (evs ++ [.lock false])
     s.insts[i]? = some inst → live s inst →
     (step H s (.query i)).2 = some (effectiveVersion H (progOf s.sym) id inst.name) := by
   intro s hi hlive
-  exact query_fresh (inv_run (inv_init H) evs) hi hlive
+  refine query_fresh (inv_run (inv_init H) _) hi hlive (Or.inl ?_)
+  have hrun : ∀ (es : List Ev) (s0 : St), run H s0 (es ++ [.lock false]) = { run H s0 es with locked := false } := by
+    intro es
+    induction es with
+    | nil => intro s0; rfl
+    | cons e es ih => intro s0; exact ih _
+  show (run H {} (evs ++ [.lock false])).locked = false
+  rw [hrun]
+
+/-- while the cluster is locked, an instance that already has a version repeats it, and the query changes nothing at all -/
+theorem locked_query_frozen (H : Ser → List Char) (s : St) (i : Nat) (inst : Inst) (c : List Char) (b : Bound)
+    (hl : s.locked = true) (hi : s.insts[i]? = some inst) (hc : inst.cver = some c)
+    (hb : lookupB s.sym inst.name = some b) (hst : b.stamp = inst.stamp)
+    (hx : ∀ e tok refs, b.d ≠ .memento (some e) tok refs) :
+    query H s i = (s, some c) := by
+  unfold query
+  simp only [hi, hb, hst, beq_self_eq_true, Bool.not_true, Bool.false_eq_true, if_false]
+  obtain ⟨st, d⟩ := b
+  cases d with
+  | plain _ _ _ => simp [hl, hc]
+  | var _ => simp [hl, hc]
+  | memento e tok refs =>
+    cases e with
+    | some e => exact absurd rfl (hx e tok refs)
+    | none => simp [hl, hc]
+
+/-- while the cluster is locked the registration of a memento function is refused: no name is bound, no instance appears (the
+    generation and the cache entry of the name are touched, which no answer depends on: `query_eq_fresh` has no hypothesis on
+    either) -/
+theorem locked_registration_refused (H : Ser → List Char) (s : St) (hl : s.locked = true) (n : Name) (e) (tok : Tok) (refs : List Name) :
+    let s' := (step H s (.defMemento n e tok refs)).1
+    s'.sym = s.sym ∧ s'.insts = s.insts ∧ s'.locked = true := by
+  simp [step, hl]
 
 /-- the same for any enumeration order of reference sets and any definition order a fresh process may use (C03) -/
 theorem query_eq_fresh_any_order (H : Ser → List Char) (evs : List Ev) (i : Nat) (inst : Inst)
     (P' : Prog) (ord' : List Name → List Name) (ho : OrdOK ord') :
     let s := run H {} evs
     (∀ n, lookup (progOf s.sym) n = lookup P' n) →
-    s.insts[i]? = some inst → live s inst →
+    s.insts[i]? = some inst → live s inst → (s.locked = false ∨ inst.cver = none) →
     (step H s (.query i)).2 = some (effectiveVersion H P' ord' inst.name) := by
-  intro s hP hi hlive
+  intro s hP hi hlive hul
   rw [← effectiveVersion_deterministic H (progOf s.sym) P' hP id ord' ordOK_id ho]
-  exact query_fresh (inv_run (inv_init H) evs) hi hlive
+  exact query_fresh (inv_run (inv_init H) evs) hi hlive hul
 
 /-- the criterion the cache relies on, stated on its own: if none of the rules an instance recorded reports a
     change and none of the symbols it watches without a rule (functions of other packages, fix F27) was re-bound, its
@@ -76,16 +121,18 @@ theorem query_keeps_program (H : Ser → List Char) (s : St) (i : Nat) : (query 
       · rfl
       · split
         · rfl
-        · cases cacheGet s.cache inst.name with
-          | none => rfl
-          | some gv =>
-            obtain ⟨g, v⟩ := gv
-            simp only
-            split
-            · split
+        · split
+          · rfl
+          · cases cacheGet s.cache inst.name with
+            | none => rfl
+            | some gv =>
+              obtain ⟨g, v⟩ := gv
+              simp only
+              split
+              · split
+                · rfl
+                · cases inst.cver <;> rfl
               · rfl
-              · cases inst.cver <;> rfl
-            · rfl
 
 /-! ### non-vacuity: a variable beneath a plain helper is rebound between two queries; a clone made before
     the change and a wrapper made after it all report the fresh version -/
@@ -128,5 +175,28 @@ example : (step exH (run exH {} exK5b) (.query 2)).2 =
     some (effectiveVersion exH (progOf (run exH {} exK5b).sym) id 2) := by decide +kernel
 example : (step exH (run exH {} (exK5b.take 8)) (.query 2)).2 ≠ (step exH (run exH {} exK5b) (.query 2)).2 := by
   decide +kernel
+
+/-! ### the cluster lock: `m1` (name 1) reads the variable 0 and is called by `m2` (name 2); both are asked, the cluster is locked, the
+variable re-bound, a new `m1` refused; the locked answers are the old ones; after unlocking both report the fresh versions -/
+def exLock : List Ev :=
+  [.setVar 0 5, .defMemento 1 none 10 [0], .defMemento 2 none 11 [1], .query 0, .query 1, .lock true, .setVar 0 6,
+   .defMemento 1 none 12 [0]]
+
+/-- locked: the old versions are repeated … -/
+example : (step exH (run exH {} exLock) (.query 0)).2 = (step exH (run exH {} (exLock.take 5)) (.query 0)).2 := by decide +kernel
+example : (step exH (run exH {} exLock) (.query 1)).2 = (step exH (run exH {} (exLock.take 5)) (.query 1)).2 := by decide +kernel
+/-- … the refused definition bound nothing and made no instance … -/
+example : (run exH {} exLock).insts.length = 2 ∧ (lookupB (run exH {} exLock).sym 1).map (·.d) = some (.memento none 10 [0]) := by
+  decide +kernel
+/-- … and after unlocking both functions report the versions of the program as it is now (which differ from the old ones) -/
+example : (step exH (run exH {} (exLock ++ [.lock false])) (.query 0)).2 =
+    some (version exH [(0, .var (some 6)), (1, .memento none 10 [0]), (2, .memento none 11 [1])] id 1) := by decide +kernel
+example : (step exH (run exH {} (exLock ++ [.lock false])) (.query 1)).2 =
+    some (version exH [(0, .var (some 6)), (1, .memento none 10 [0]), (2, .memento none 11 [1])] id 2) := by decide +kernel
+example : (step exH (run exH {} (exLock ++ [.lock false])) (.query 1)).2 ≠ (step exH (run exH {} exLock) (.query 1)).2 := by
+  decide +kernel
+/-- an instance made while locked (a wrapper: no version yet) computes the fresh version even though the cluster is locked -/
+example : (step exH (run exH {} (exLock ++ [.wrapper 1])) (.query 2)).2 =
+    some (version exH [(0, .var (some 6)), (1, .memento none 10 [0]), (2, .memento none 11 [1])] id 1) := by decide +kernel
 
 end Memento.VersionCache
